@@ -51,4 +51,8 @@ def renderOptInts {α : Type} [ToString α] : Option (List α) → String
   | none => "None"
   | some v => "Some " ++ renderInts v
 
+def renderOptHex : Option (List Nat) → String
+  | none => "None"
+  | some v => "Some " ++ renderHex v
+
 end Falcon.Driver
